@@ -28,7 +28,8 @@ RULE = ("random abstract DSLs (families F1-F6 of lib/dsls.py) compiled by the re
         "size of the enumerated language, float sum of probability() over the language, the tags after uniform / normalise / "
         "learning.  Non-trivial = candidates contain members and non-members, the language has >= 3 programs and the model "
         "reports the weighted table well formed (wf_at) so that the sum-to-one theorem applies.")
-ASSUMPTIONS = ["float arithmetic: probability() is compared with the exact rational product within relative "
+ASSUMPTIONS = ["hand-made weights are dyadic; one case in three uses weights whose sum at every non-terminal is within 1% of 1 without being 1 (normalise() must still normalise them)",
+               "float arithmetic: probability() is compared with the exact rational product within relative "
                "(k*(m+2)+2)*2^-52, k = program size, m = largest number of rules of a non-terminal; sums within 1e-9",
                "grammars are finite (no recursive=True), at most 2500 programs (the runner lowers the bound otherwise)",
                "programs have no empty application Function(P, []); rule dictionaries come from Python dicts (distinct keys)",
